@@ -55,6 +55,9 @@ FinishA == /\ ph = "scan" /\ ScanDone(dna, st) /\ ph' = "done"
 Next == ScanA \/ FinishA
 Spec == Init /\ [][Next]_vars
 Done == ph = "done"
+\* liveness form of C10 (the safety form is ScanAdvances + TickBound): under weak fairness every call finishes
+FairSpec == Spec /\ WF_vars(Next)
+Termination == <>Done
 Walk == IsWalk(g.live, NN, start, dna)
 \* ---- C08
 Recovers == (Done /\ Source = "edits" /\ res.det = Len(es)) => w \in ToSet(res.cands)
